@@ -76,12 +76,15 @@ struct Runner {
 			case GetViaSharedPtr: if (want.t == RT::Str) { std::shared_ptr<std::string> v; bool ok = Fetch(sc, key, v); if (!ok || !v || *v != want.s) report("shared_ptr member not loaded correctly", vf::cat("key '", key, "'")); } else get_typed(sc, key, want); break;
 			case GetViaAtomic: if (isInt) { std::atomic<int64_t> v{ 9 }; bool ok = Fetch(sc, key, v); if (!ok || v.load() != wi) report("std::atomic member not loaded correctly", vf::cat("key '", key, "' -> ", v.load())); } else get_typed(sc, key, want); break;
 			case OpenArrayPartly:
+				if (want.t == RT::Nil) { if constexpr (can_serialize_array_with_key_v<Sc, std::string>) { auto child = sc.OpenArrayScope(key, 0); if (child) report("a null value opens as an array scope", vf::cat("key '", key, "'")); } else get_typed(sc, key, want); break; }
 				if (want.t == RT::Arr) { if constexpr (can_serialize_array_with_key_v<Sc, std::string>) { auto child = sc.OpenArrayScope(key, want.arr.size());
 					if (!child) report("a present field is reported as not loaded", vf::cat("key '", key, "' (array scope)"));
 					else { const size_t n = std::min(op.readCount, want.arr.size()); for (size_t i = 0; i < n; i++) { int64_t v = -5; bool ok = Serialize(*child, v); const int64_t w = want.arr[i].t == RT::Int ? want.arr[i].i : static_cast<int64_t>(want.arr[i].u); if (!ok || v != w) { report("element of a partly read array is wrong", vf::cat("key '", key, "'[", i, "] got ", v, " want ", w)); break; } }
 						if (n == want.arr.size() && !child->IsEnd()) report("array scope does not report its end", vf::cat("key '", key, "'")); if (n < want.arr.size() && child->IsEnd()) report("array scope reports its end too early", vf::cat("key '", key, "'")); } } }
 				else get_typed(sc, key, want); break;
 			case OpenObjectScript:
+				if (want.t == RT::Nil) {   // a null where the program expects a nested object (optional / pointer member): "not loaded", and the requests that follow are served correctly
+					if constexpr (can_serialize_object_with_key_v<Sc, std::string>) { auto child = sc.OpenObjectScope(key, 0); if (child) report("a null value opens as an object scope", vf::cat("key '", key, "'")); } else get_typed(sc, key, want); break; }
 				if (want.t == RT::Map) { if constexpr (can_serialize_object_with_key_v<Sc, std::string>) { auto child = sc.OpenObjectScope(key, want.map.size()); if (!child) report("a present field is reported as not loaded", vf::cat("key '", key, "' (object scope)")); else { Runner r = *this; auto sub = fields_of(want); r.fields = &sub; r.script = &op.sub; r.depth = depth + 1; r.run(*child); } } }
 				else get_typed(sc, key, want); break;
 			default: break;
